@@ -57,8 +57,9 @@ class FakeQueue:
 cv = contextvars.ContextVar("c14", default=-1)
 
 
-def scn(sym, cov, n, funcs, cancel=None, abandon=False, eager=False, T=1, J=2, precancel=False, RJ=1):
-    """funcs[k]: 'ret' | 'raise' | 'ctx' | 'chk' (calls from_thread.check_cancelled())"""
+def scn(sym, cov, n, funcs, cancel=None, abandon=False, eager=False, T=1, J=2, precancel=False, RJ=1, shielded_caller=False):
+    """funcs[k]: 'ret' | 'raise' | 'ctx' | 'chk' (calls from_thread.check_cancelled()) | 'retexc' (RETURNS an exception instance)
+    shielded_caller: the call is made directly inside a shielded scope, and it is THAT scope which gets cancelled"""
     import anyio
     import anyio._backends._asyncio as B
     from anyio import CancelScope, from_thread, to_thread
@@ -100,6 +101,9 @@ def scn(sym, cov, n, funcs, cancel=None, abandon=False, eager=False, T=1, J=2, p
             if funcs[k] == "raise":
                 excs[k] = E(k)
                 raise excs[k]
+            if funcs[k] == "retexc":
+                excs[k] = E(k)
+                return excs[k]  # a value that happens to be an exception object
             if funcs[k] == "ctx":
                 return ("ctx", cv.get())
             if funcs[k] == "chk":
@@ -119,6 +123,7 @@ def scn(sym, cov, n, funcs, cancel=None, abandon=False, eager=False, T=1, J=2, p
     async def main():
         lim = anyio.CapacityLimiter(total)
         scopes = [CancelScope() for _ in range(n)]
+        inners: dict = {}
 
         def in_flight():
             # handed to a thread and not yet executed, callers that were abandoned excluded
@@ -129,7 +134,7 @@ def scn(sym, cov, n, funcs, cancel=None, abandon=False, eager=False, T=1, J=2, p
                 if any(it is not None and it[1].k == k for it in w.queue.items):
                     if len(in_flight()) > lim.total_tokens:
                         bad("more-running-calls-than-tokens", {"in_flight": len(in_flight()), "total": lim.total_tokens})
-                    st["scope_eff_%d" % k] = scopes[k].cancel_called
+                    st["scope_eff_%d" % k] = scopes[k].cancel_called or (k in inners and inners[k].cancel_called)
                     w.run()  # the REAL WorkerThread.run(): runs the function, reports via call_soon_threadsafe
                     return
             if k not in res and tries < 8:
@@ -147,8 +152,23 @@ def scn(sym, cov, n, funcs, cancel=None, abandon=False, eager=False, T=1, J=2, p
                 cv.set(100 + k)
                 r = {"cancelled_before": scopes[k].cancel_called, "t0": (loop.time(), loop.cycles), "waited": lim.available_tokens <= 0}
                 try:
-                    r["value"] = await to_thread.run_sync(fns[k], abandon_on_cancel=abandon, limiter=lim)
-                    r["out"] = "returned"
+                    if shielded_caller:
+                        with CancelScope(shield=True) as inner:
+                            inners[k] = inner
+                            r["value"] = await to_thread.run_sync(fns[k], abandon_on_cancel=abandon, limiter=lim)
+                        r["inner_caught"] = inner.cancelled_caught
+                    else:
+                        r["value"] = await to_thread.run_sync(fns[k], abandon_on_cancel=abandon, limiter=lim)
+                    if "value" in r:
+                        r["out"] = "returned"
+                    else:
+                        # the shielded scope absorbed its own cancellation raised by run_sync
+                        r["out"] = "cancelled"
+                        r["ran_at_cancel"] = st["ran"].get(k, 0)
+                        if abandon:
+                            st["abandoned"].add(k)
+                        res[k] = r
+                        return
                 except E as e:
                     r["out"] = "raised"
                     r["exc"] = e
@@ -169,8 +189,15 @@ def scn(sym, cov, n, funcs, cancel=None, abandon=False, eager=False, T=1, J=2, p
                     r["next_checkpoint"] = "cancelled"
                     raise
 
+        def do_cancel():
+            if shielded_caller:
+                if cancel in inners:
+                    inners[cancel].cancel()
+            else:
+                scopes[cancel].cancel()
+
         if cancel is not None and not precancel:
-            loop.env_at(ct, cj, scopes[cancel].cancel)
+            loop.env_at(ct, cj, do_cancel)
         for k in range(n):
             loop.env_at(rt[k], rj[k], run_thread, k)
         async with anyio.create_task_group() as tg:
@@ -202,6 +229,8 @@ def scn(sym, cov, n, funcs, cancel=None, abandon=False, eager=False, T=1, J=2, p
             chk(ran == 1, "returned-without-running-the-function", k)
             if funcs[k] == "ret":
                 chk(r["value"] == v[k], "wrong-return-value", {"got": r["value"], "want": v[k]})
+            elif funcs[k] == "retexc":
+                chk(r["value"] is excs.get(k), "returned-exception-object-not-returned-as-value", repr(r["value"]))
             elif funcs[k] == "ctx":
                 chk(r["value"] == ("ctx", 100 + k), "context-variable-not-visible-in-thread", r["value"])
             elif funcs[k] == "chk":
@@ -209,11 +238,12 @@ def scn(sym, cov, n, funcs, cancel=None, abandon=False, eager=False, T=1, J=2, p
                 chk(r["value"] == ("chk", want), "check_cancelled-wrong", {"raised": r["value"][1], "scope_cancelled": want})
                 cov.hit("thread:check_cancelled-raised", r["value"][1])
             cov.hit("thread:returned-value")
-            if r.get("cancel_called_at_return"):
+            if r.get("cancel_called_at_return") and not shielded_caller:
                 chk(not abandon or True, "")
                 chk(r.get("next_checkpoint") == "cancelled", "pending-cancellation-not-delivered-at-next-checkpoint", k)
                 cov.hit("thread:caller-cancelled-while-running-not-abandoned", not abandon)
         elif r["out"] == "raised":
+            chk(funcs[k] == "raise", "value-raised-instead-of-returned", {"caller": k, "func": funcs[k]})
             chk(r["exc"] is excs.get(k), "wrong-exception-object", k)
             cov.hit("thread:raised")
         else:
@@ -247,6 +277,9 @@ def units(tier):
     add("1 raise cancel", ["raise"], cancel=0)
     add("1 chk cancel", ["chk"], cancel=0, J=2)
     add("1 ctx", ["ctx"])
+    add("1 retexc", ["retexc"])
+    add("1 retexc cancel", ["retexc"], cancel=0)
+    add("1 chk in shielded scope, that scope cancelled", ["chk"], cancel=0, shielded_caller=True, J=2)
     add("2 ret+raise cancel0", ["ret", "raise"], cancel=0, RJ=0)
     add("2 ret+ret cancel1 abandon", ["ret", "ret"], cancel=1, abandon=True, RJ=0)
     add("2 ctx+chk cancel1", ["ctx", "chk"], cancel=1, RJ=0)
